@@ -9,7 +9,7 @@
 //
 //	c23selftest --repo /repo --root /verif [--tier quick|thorough] [--seed n]
 //
-// quick tier: the control and three of the mutations (rotating with the seed); thorough: all.
+// quick tier: the control and two of the mutations (rotating with the seed); thorough: all.
 //
 // Last stdout line: the JSON verdict bin/check expects.
 package main
@@ -115,12 +115,12 @@ func leanCheck(root, dir, gen string) (failed []string, exitOK bool, out string)
 func main() {
 	repo := flag.String("repo", "/repo", "pilosa tree")
 	root := flag.String("root", "/verif", "verification root")
-	tier := flag.String("tier", "quick", "quick: control + 3 mutations chosen by --seed; thorough: all")
+	tier := flag.String("tier", "quick", "quick: control + 2 mutations chosen by --seed; thorough: all")
 	seed := flag.Int("seed", 1, "rotates the quick-tier subset")
 	flag.Parse()
 	if *tier != "thorough" {
 		var sub []mutation
-		for k := 0; k < 3; k++ {
+		for k := 0; k < 2; k++ {
 			sub = append(sub, mutations[((*seed%len(mutations))+len(mutations)+k*3)%len(mutations)])
 		}
 		mutations = sub
